@@ -24,7 +24,7 @@ RULE = (
     'None, exogenous symbols without equation) through symbols_to_dataframe -> dataframe_to_symbols. Oracle: frame index = '
     'span element-wise, columns = expected names in model order (+ status, iterations when requested; underscore names iff '
     'requested), column values = the series exactly, numeric and boolean dtypes preserved; one table per submodel id plus '
-    'the linker name; from_dataframe reproduces list(span) and every value; the symbol round trip returns a list equal to '
+    'the linker name; from_dataframe reproduces list(span) and every value in series that are writeable and not views of the table; the symbol round trip returns a list equal to '
     'Expected column values are read from the object\'s storage; flags at their documented default are also left out; a table '
     'exported earlier does not change when the model is changed in place afterwards; the empty symbol list round-trips. '
     'the original (tuple equality, None stays None, ints stay int). Non-trivial: the model has a non-float or underscore '
@@ -180,6 +180,18 @@ def check_model(case):
         if not same_array(np.asarray(b[nm]), np.asarray(m[nm])):
             res.fail('from_dataframe/values', f'{detail}: {nm} = {np.asarray(b[nm]).tolist()}, original {np.asarray(m[nm]).tolist()}')
             break
+    # "constructing a model": the import is a model of its own - every series can be assigned to (as C09's histories do)
+    # and none is a view of the table it was read from (added after seeded change C19-t, where pandas' read-only block
+    # views became the model's storage)
+    for nm in M.NAMES:
+        arr = b.__dict__.get('_' + nm)
+        if isinstance(arr, np.ndarray) and len(arr):
+            if not arr.flags.writeable:
+                res.fail('from_dataframe/read-only-series', f'{detail}: series {nm} of the imported model is read-only')
+                break
+            if nm in data.columns and np.shares_memory(arr, data[nm].values):
+                res.fail('from_dataframe/series-is-table-view', f'{detail}: series {nm} of the imported model shares memory with the table')
+                break
     # a table with the rows of the span and no data column at all (a model none of whose variables is exported, or a
     # selection of no columns): the span is still reproduced, the variables keep their defaults
     none = attempt(M.from_dataframe, df[[]])
